@@ -73,9 +73,10 @@ ASSUMPTIONS = [
     "of the magnitude of the bounds",
     "update batches contain at least two distinct values per parameter "
     "(spread >= 1e-6*range)",
-    "fixed-scale angles are only generated on the bounds their name documents "
-    "([0,2pi], [-pi,pi], [0,pi], [-pi/2,pi/2]); 'periodic' (scale from the "
-    "bounds) on any finite bounds",
+    "fixed-scale angles are generated on the bounds their name documents "
+    "([0,2pi], [-pi,pi], [0,pi], [-pi/2,pi/2]) and on generated bounds whose "
+    "range is shorter than the period 2pi/scale (where the map is one-to-"
+    "one); 'periodic' (scale from the bounds) on any finite bounds",
     "prime priors are compared on points inside the box by 1e-12*range + 16 "
     "ulp and, for affine maps, outside it by the same margin; Angle prime "
     "priors only with the auxiliary radius (the user's radial prior is "
